@@ -30,7 +30,7 @@ ASSUMPTIONS = ["dimension-wise full-space assertions are strict until the first 
 
 def cases(tier, seed):
     out = []
-    for gen, n in (("dimwise", 300), ("modified", 90), ("extsplit", 220), ("cell", 50)):
+    for gen, n in (("dimwise", 420), ("modified", 90), ("extsplit", 220), ("cell", 50)):
         n = n if tier == "quick" else n * 15
         out += [{"gen": gen, "seed": case_seed(seed, "C04", gen, i), "tier": tier} for i in range(n)]
     return out
